@@ -508,6 +508,60 @@ Proof.
     inversion ER; subst. reflexivity.
 Qed.
 
+(** ** Pending records are never modified: whatever is pending (pool or batch) after a step was
+    pending before, or is the record the accepted send of this step created. *)
+Definition pending (s : state) : list transfer := pool s ++ flat_map b_txs (batches s).
+
+Lemma find_batch_in tok nonce l b : find_batch tok nonce l = Some b -> In b l.
+Proof. unfold find_batch. intros H. now apply find_some in H. Qed.
+
+Lemma in_flat_remove tok nonce l t :
+  In t (flat_map b_txs (remove_batch tok nonce l)) -> In t (flat_map b_txs l).
+Proof.
+  unfold remove_batch. rewrite !in_flat_map. intros (b & Hb & Ht). exists b. split; auto.
+  now apply filter_In in Hb.
+Qed.
+
+Lemma step_pending o s t : tax_wf s -> In t (pending (step s o)) ->
+  In t (pending s) \/
+  exists h snd tok a mal, o = Send h snd tok a mal /\ Datatypes.snd (deliver o s) = Ok /\
+    t = {| t_id := last_id s + 1; t_sender := snd; t_tok := tok; t_amount := a; t_tax := spec_tax s snd tok a |}.
+Proof.
+  intros WF. unfold step. destruct (deliver o s) as [s' r] eqn:ED. simpl.
+  destruct r; try (pose proof (deliver_failed_noop o s) as HN; rewrite ED in HN; simpl in HN;
+                   rewrite HN by discriminate; auto).
+  destruct o.
+  - destruct (send_records _ _ _ _ _ _ _ WF ED) as (Hp & Hb & _).
+    unfold pending. rewrite Hp, Hb. simpl. intros [<-|H]; [right|left; exact H].
+    exists h, snd, tok, a, mal. auto.
+  - apply deliver_ok in ED. simpl in ED. unfold cancel_raw in ED.
+    destruct (id <? 1); [discriminate|]. destruct (find_tx id (pool s)); [|discriminate].
+    destruct (negb _); [discriminate|]. destruct (_ <? _); [discriminate|]. inversion ED; subst; clear ED.
+    unfold pending. simpl. rewrite !in_app_iff. intros [H|H]; left; auto.
+    left. unfold remove_tx in H. now apply filter_In in H.
+  - apply deliver_ok in ED. simpl in ED. unfold batch_raw in ED.
+    destruct (negb _); [discriminate|].
+    destruct (filter (of_tok tok) (pool s)) as [|t0 sel] eqn:EF; inversion ED; subst; clear ED; auto.
+    unfold pending. simpl. rewrite !in_app_iff. intros [H|H]; [|destruct H as [H|H]; [|apply in_app_iff in H; destruct H as [H|H]]]; left.
+    + left. now apply filter_In in H.
+    + left. assert (HI : In t (filter (of_tok tok) (pool s))) by (rewrite EF; left; exact H). now apply filter_In in HI.
+    + left. assert (HI : In t (filter (of_tok tok) (pool s))) by (rewrite EF; right; exact H). now apply filter_In in HI.
+    + right. exact H.
+  - apply deliver_ok in ED. simpl in ED. unfold execute_raw in ED.
+    destruct (find_batch tok nonce (batches s)); [|discriminate].
+    destruct (_ <? _); [discriminate|]. inversion ED; subst; clear ED.
+    unfold pending. simpl. rewrite !in_app_iff. intros [H|H]; left; auto.
+    right. eapply in_flat_remove; eauto.
+  - apply deliver_ok in ED. simpl in ED. unfold unbatch_raw in ED.
+    destruct (find_batch tok nonce (batches s)) as [b|] eqn:EB; [|discriminate]. inversion ED; subst; clear ED.
+    unfold pending. simpl. rewrite !in_app_iff. intros [[H|H]|H]; left; auto.
+    + right. apply in_flat_map. exists b. split; auto. eapply find_batch_in; eauto.
+    + right. eapply in_flat_remove; eauto.
+  - apply deliver_ok in ED. simpl in ED. unfold settax_raw in ED.
+    destruct (_ && _); [|discriminate]. inversion ED; subst. auto.
+  - apply deliver_ok in ED. simpl in ED. unfold setlimit_raw in ED. inversion ED; subst. auto.
+Qed.
+
 (** ** Well-formed tax configuration is an invariant of governance *)
 Definition op_wf (o : op) : Prop :=
   match o with SetTax _ true _ den _ => 0 < den | _ => True end.
@@ -544,6 +598,22 @@ Qed.
 Lemma tax_wf_init bals mp : tax_wf (init bals mp).
 Proof. unfold tax_wf, init. simpl. discriminate. Qed.
 
+(** (P) over histories: every transfer pending at the end carries exactly the amount and the tax
+    computed when the accepted send created it (so cancel refunds and execution burns THAT tax). *)
+Lemma pending_origin ops s t : tax_wf s -> Forall op_wf ops -> In t (pending (run s ops)) ->
+  In t (pending s) \/
+  exists pre h snd tok a mal, In (pre, Send h snd tok a mal, Ok) (trace s ops) /\
+    t = {| t_id := last_id pre + 1; t_sender := snd; t_tok := tok; t_amount := a;
+           t_tax := spec_tax pre snd tok a |}.
+Proof.
+  revert s. induction ops as [|o ops IH]; intros s WF HF HI; [left; exact HI|].
+  inversion HF; subst. simpl in HI.
+  destruct (IH (step s o) (step_tax_wf _ _ WF H1) H2 HI) as [HP|(pre & h & snd & tok & a & mal & Hin & ->)].
+  - destruct (step_pending _ _ _ WF HP) as [HP'|(h & snd & tok & a & mal & -> & Hok & ->)]; [left; exact HP'|].
+    right. exists s, h, snd, tok, a, mal. split; auto. simpl. left. now rewrite Hok.
+  - right. exists pre, h, snd, tok, a, mal. split; auto. simpl. right. exact Hin.
+Qed.
+
 (** ** Non-vacuity: a concrete history exercising every clause *)
 Definition ex_init : state := init [(0, 0, 1000); (1, 0, 1000); (2, 0, 1000)] [0].
 Definition ex_ops : list op :=
@@ -568,6 +638,12 @@ Proof. vm_compute. reflexivity. Qed.
 Example ex_outcomes : map (fun e => Datatypes.snd e) (trace ex_init ex_ops) =
   [Ok; Ok; Ok; Err ELimit; Ok; Ok; Ok; Ok; Ok; Ok].
 Proof. vm_compute. reflexivity. Qed.
+Example ex_pending_mid :
+  map (fun t => (t_id t, t_amount t, t_tax t)) (pending (run ex_init (firstn 7 ex_ops))) =
+  [(4, 150, 50); (3, 500, 166); (2, 50, 0); (1, 100, 33)].
+Proof. vm_compute. reflexivity. Qed.
+Example ex_wf : tax_wf ex_init /\ Forall op_wf ex_ops.
+Proof. split; [apply tax_wf_init | repeat constructor]. Qed.
 (** keeper level: a send that fails AFTER the limiter leaves the tally consumed on the bare
     context — atomicity of the message is what restores it (why the property is about messages). *)
 Example ex_keeper_level_not_atomic :
